@@ -1,39 +1,29 @@
-(** C16 -- the probe names of the theorem and the list of known defects of the unchanged tree (static; does not
-    depend on /repo).  Shared by props/C16.v (the theorem is stated over the complement) and props/C16_refuted.v
-    (every listed key is refuted by the model). *)
+(** C16 -- the probe names of the theorem and the list of known (unrepaired) defects (static; does not depend on
+    /repo).  Shared by props/C16.v (the theorem is stated over the complement) and props/C16_refuted.v (every listed
+    key is refuted by the model).
+
+    The 27 keys found on the original tree (log1p x4, slice x8, array_repeat x4, overlay x10, date_sub x1) were
+    repaired in /repo (commits 149f416, 696553d, 299ac48, dcac97a, 99aad65; findings/C16.known.json, status fixed):
+    nothing is excluded from the theorem any more.  Their replay files stay as corpus cases (props/C16.v
+    [C16_repaired], checks/c16.py). *)
 From Coq Require Import String List ZArith. Import ListNotations. Open Scope string_scope.
 
 (** the theorem is checked for these probe names (the finite bound of the statement) *)
 Definition probe_names : list string := ["c"; "zz9"].
 
-(** genuine defects of the unchanged tree (findings/C16.known.json): the theorem is stated over the complement *)
-Definition C16_known : list (string * string * nat) := [
-  ("array_repeat", "databricks", 1%nat);
-  ("array_repeat", "redshift", 1%nat);
-  ("array_repeat", "spark", 1%nat);
-  ("array_repeat", "standalone", 1%nat);
-  ("date_sub", "snowflake", 1%nat);
-  ("log1p", "bigquery", 0%nat);
-  ("log1p", "duckdb", 0%nat);
-  ("log1p", "postgres", 0%nat);
-  ("log1p", "snowflake", 0%nat);
-  ("overlay", "databricks", 2%nat);
-  ("overlay", "databricks", 3%nat);
-  ("overlay", "postgres", 2%nat);
-  ("overlay", "postgres", 3%nat);
-  ("overlay", "redshift", 2%nat);
-  ("overlay", "redshift", 3%nat);
-  ("overlay", "spark", 2%nat);
-  ("overlay", "spark", 3%nat);
-  ("overlay", "standalone", 2%nat);
-  ("overlay", "standalone", 3%nat);
-  ("slice", "bigquery", 1%nat);
-  ("slice", "bigquery", 2%nat);
-  ("slice", "duckdb", 1%nat);
-  ("slice", "duckdb", 2%nat);
-  ("slice", "postgres", 1%nat);
-  ("slice", "postgres", 2%nat);
-  ("slice", "snowflake", 1%nat);
-  ("slice", "snowflake", 2%nat)
-].
+(** genuine defects still present in the tree: none *)
+Definition C16_known : list (string * string * nat) := [].
 
+(** the keys that used to be listed; they are ordinary members of the theorem's domain now *)
+Definition C16_repaired_keys : list (string * string * nat) := [
+  ("array_repeat", "databricks", 1%nat); ("array_repeat", "redshift", 1%nat);
+  ("array_repeat", "spark", 1%nat); ("array_repeat", "standalone", 1%nat);
+  ("date_sub", "snowflake", 1%nat);
+  ("log1p", "bigquery", 0%nat); ("log1p", "duckdb", 0%nat); ("log1p", "postgres", 0%nat); ("log1p", "snowflake", 0%nat);
+  ("overlay", "databricks", 2%nat); ("overlay", "databricks", 3%nat); ("overlay", "postgres", 2%nat);
+  ("overlay", "postgres", 3%nat); ("overlay", "redshift", 2%nat); ("overlay", "redshift", 3%nat);
+  ("overlay", "spark", 2%nat); ("overlay", "spark", 3%nat); ("overlay", "standalone", 2%nat);
+  ("overlay", "standalone", 3%nat);
+  ("slice", "bigquery", 1%nat); ("slice", "bigquery", 2%nat); ("slice", "duckdb", 1%nat); ("slice", "duckdb", 2%nat);
+  ("slice", "postgres", 1%nat); ("slice", "postgres", 2%nat); ("slice", "snowflake", 1%nat); ("slice", "snowflake", 2%nat)
+].
